@@ -169,6 +169,26 @@ def getters(ctx, R):
     return n
 
 
+def through_accessors(F, e):
+    """`x.inner()` where `inner(&self) -> &T { &self.0 }` is the place `x.0`: trivial accessors of the crate are looked
+    through (the binding may reach the wrapped value by field or by accessor)"""
+    from lib import E
+    for _ in range(4):
+        x = e.strip() if e.kind == 'call' and e.name.rsplit('::', 1)[-1] in ('clone', 'deref', 'as_ref', 'borrow') else e
+        if x.kind != 'call' or len(x.args) != 1:
+            return e
+        cbs = F.get(x.name)
+        if len(cbs) != 1 or cbs[0].nargs != 1:
+            return e
+        r = ExprBuilder(cbs[0]).place(0, ()).strip()
+        a = x.args[0].strip()
+        if r.kind == 'place' and r.root == ('param', 1) and a.kind == 'place':
+            e = E('place', root=a.root, fields=tuple(a.fields) + tuple(r.fields))
+        else:
+            return e
+    return e
+
+
 def inner_calls(F, ub, f0):
     """calls (in the method body and its closures) whose receiver is exactly self.<f0>, self, or self.<f0>.store"""
     out = []
@@ -179,7 +199,7 @@ def inner_calls(F, ub, f0):
                 continue
             r = eb.arg(c, 0)
             rb, rs = resolve_to_root(F, b, r)
-            rs = rs.strip()
+            rs = through_accessors(F, rs).strip()
             if rb is not ub or rs.kind != 'place' or rs.root != ('param', 1):
                 continue
             out.append((c, rs.fields, b))
@@ -217,7 +237,9 @@ def delegation(ctx, R):
                 accept = ALIAS.get(fn, []) + [fn, x]
                 ok = any(c.startswith(inner + '::') and (c.rsplit('::', 1)[-1] in accept or c.rsplit('::', 1)[-1].startswith(
                     fn) or fn.startswith(c.rsplit('::', 1)[-1])) for c in names) or \
-                    any(c.startswith(w + '::') and c.rsplit('::', 1)[-1] in accept + ['new'] for c in names)
+                    any(c.startswith(w + '::') and (c.rsplit('::', 1)[-1] in accept + ['new'] or
+                                                     c.rsplit('::', 1)[-1].startswith(fn) or
+                                                     fn.startswith(c.rsplit('::', 1)[-1])) for c in names)
                 n += 1
                 ctx.check(ok, R, ub, '%s::%s(static)->%s' % (wname, fn, inner.rsplit('::', 1)[-1]), '',
                           'static binding %s::%s does not call %s::%s (calls: %s)' % (
